@@ -198,6 +198,17 @@ theorem sqlText_init_db_eq : Gen.OutputStreams.sqlText_init_db =
 theorem csv_open_writer_eq : Gen.OutputStreams.csv_open_writer =
     ["file = open(self.target_path / f'{table_name}.csv', 'w', newline='')", "fieldnames = list(table.fields.keys()) + ['id']", "if getattr(table, 'has_update_keys', False):\n    fieldnames.append('_sf_update_key')", "writer = csv.DictWriter(file, fieldnames)", "writer.writeheader()", "return CSVContext(dictwriter=writer, file=file)"] := rfl
 
+/-- **CSV dialect**: the only csv writer of the module is `csv.DictWriter(file, fieldnames)` with *no*
+    dialect keyword — the default excel dialect (delimiter `,`, quote `"`, line terminator `\r\n`,
+    minimal quoting), under which a field is quoted whenever it holds the delimiter, the quote
+    character, `\r` or `\n`; that is the contract behind "csv carries a string verbatim"
+    (`Props.C08.cell_str_partial`).  Any dialect parameter (`lineterminator=`, `quoting=`, `delimiter=`,
+    `escapechar=`, …) changes this pin. -/
+theorem csvWriterCalls_eq : Gen.OutputStreams.csvWriterCalls = [("csv.DictWriter/2", "")] := rfl
+
+/-- …written to a file opened with `newline=""` (no newline translation on top of the dialect) -/
+theorem csvOpenArgs_eq : Gen.OutputStreams.csvOpenArgs = [("arg1", "'w'"), ("newline", "''")] := rfl
+
 /-- CSV close: files, then `csvw_metadata.json` -/
 theorem csv_close_eq : Gen.OutputStreams.csv_close =
     ["messages = []", "for context in self.writers.values():\n    context.file.close()\n    messages.append(f'Created {context.file.name}')", "table_metadata = [{'url': f'{table_name}.csv'} for table_name, writer in self.writers.items()]", "csv_metadata = {'@context': 'http://www.w3.org/ns/csvw', 'tables': table_metadata}", "csvw_filename = self.target_path / 'csvw_metadata.json'", "with open(csvw_filename, 'w') as f:\n    json.dump(csv_metadata, f, indent=2)", "messages.append(f'Created {csvw_filename}')", "return messages"] := rfl
